@@ -3,7 +3,7 @@
    is read through the closing primitives, was consumed.  That every consumed identifier / literal is also STORED in the tree is
    not a theorem here (it would be a second sweep over the parser model); it is judged on the implementation by unique renaming. *)
 From Coq Require Import List NArith ZArith Bool String Ascii Lia.
-Require Import Base.Common Gen.LexTable Lex.Model Cur.Model Cur.Proofs Tree.Value Gen.Static Parse.Prim Parse.Model Parse.C08Facts Stmt.C06Facts Print.Model.
+Require Import Base.Common Gen.LexTable Lex.Model Cur.Model Cur.Proofs Tree.Value Gen.Static Parse.Prim Parse.Model Parse.C08Facts Parse.Suffix Stmt.C06Facts Print.Model.
 Import ListNotations.
 Open Scope string_scope.
 Open Scope list_scope.
@@ -25,6 +25,13 @@ Proof. exact each_closed_consumes. Qed.
 Theorem C08_statements_consume_everything : forall n fuel d ts acc vs, statements_loop n fuel d ts acc = Ok vs -> loop_consumed n fuel d ts = true.
 Proof. exact statements_loop_consumed. Qed.
 
+(* 3b. WHOLE parser model, every parse function, dialect, argument, token list and fuel: what a function hands back as "the remaining tokens"
+   is a suffix of what it was given -- tokens are consumed from the front only, never re-ordered, invented or handed back (one induction on
+   the fuel over all function bodies, Parse/Suffix.v). *)
+Theorem C08_remainder_is_suffix : forall fuel f d a ts v rest,
+  run fuel f d a ts = Ok (v, rest) -> exists consumed, ts = consumed ++ rest.
+Proof. exact run_suffix. Qed.
+
 (* 4. literals reach the printed text unchanged in every dialect (C06) *)
 Theorem C08_literal_printed_verbatim : forall d s, print d (VNode "ASTLiteralExpression" [("value", VStr s)]) = Ok s.
 Proof. exact print_literal_verbatim. Qed.
@@ -37,5 +44,6 @@ Print Assumptions C08_close_reports.
 Print Assumptions C08_close_model.
 Print Assumptions C08_segments_fully_consumed.
 Print Assumptions C08_statements_consume_everything.
+Print Assumptions C08_remainder_is_suffix.
 Print Assumptions C08_literal_printed_verbatim.
 Print Assumptions C08_example.
